@@ -47,7 +47,7 @@ CLock(c) ==
 
 CDeliver(c) ==
   /\ cpc[c] = "locked" /\ rlock = c
-  /\ \E p \in DOMAIN pst : pst[p] # "closed" /\ Deliver(p)
+  /\ \E p \in DOMAIN pst : p \notin dead /\ Deliver(p)
   /\ UNCHANGED <<cpc, cn, regpc, regi, upc, vetoed>>
 
 CVeto(c) ==
@@ -94,7 +94,8 @@ RLock ==
   /\ regpc' = "locked" /\ UNCHANGED <<cpc, cn, regi, upc, vetoed>>
 RActivate ==
   /\ regpc = "locked"
-  /\ \E order \in [1..(Len(Prune(active)) + 1) -> SeqSet(Prune(active)) \cup {RP}] : Activate(RP, order)
+  /\ \E n \in Len(Prune(active))..(Len(active) + 1) :
+        \E order \in [1..n -> SeqSet(active) \cup {RP}] : Activate(RP, order)
   /\ regpc' = "activated" /\ UNCHANGED <<cpc, cn, regi, upc, vetoed>>
 RUnlock ==
   /\ regpc = "activated" /\ Unlock(RP)
@@ -105,7 +106,7 @@ RFinish ==
 
 \* ---------------------------------------------------------------- failures --
 Fail ==
-  /\ \E p \in Failable : Known(p) /\ pst[p] = "active" /\ PluginClosed(p)
+  /\ \E p \in Failable : Known(p) /\ PluginClosed(p)
   /\ UNCHANGED <<cpc, cn, regpc, regi, upc, vetoed>>
 
 \* ------------------------------------------------------ unsolicited update --
@@ -139,7 +140,7 @@ Delivered ==
      (cpc[c] = "locked" /\ rlock = c /\ RelayDone /\ ~cur.veto) =>
         \A k \in DOMAIN cur.plist :
            LET p == cur.plist[k] IN
-           (cur.ev \in mask[p] /\ pst[p] # "closed") =>
+           (cur.ev \in mask[p] /\ p \notin dead) =>
               Cardinality({i \in DOMAIN cur.visited : cur.visited[i] = p}) = 1
 \* only subscribed plugins are invoked, in index order
 VisitedOK ==
